@@ -575,6 +575,33 @@ fn gen_c05(seed: u64, idx: usize, _tier: Tier) -> RunScenario {
             // run, or somebody else, fixed its mode): at its turn it is defined and executable, so it runs
             late_exec(&mut rng, &mut sc);
         }
+        5 | 6 | 7 => {
+            // an explicit list names one target twice: verbatim, with a trailing slash (tab completion) or with a
+            // leading `./`. A tool may refuse a spelling it does not know; it may not run the target twice.
+            if sc.mode == Mode::Named && !sc.script.opts.targets.is_empty() && !sc.script.opts.targets.iter().all(|t| t.trim().is_empty()) {
+                let t = sc.script.opts.targets[rng.below(sc.script.opts.targets.len())].clone();
+                let again = match rng.below(3) {
+                    0 => t.clone(),
+                    1 => format!("{}/", t),
+                    _ => format!("./{}", t),
+                };
+                sc.script.opts.targets.push(again);
+            }
+        }
+        8 => {
+            // a layer of 130-150 independent targets under one command (wider than any batch size)
+            let mut rng2 = Rng::new(scenario_seed(seed, "C05w", idx));
+            let p = GenParams { max_t: 3, wide_group: Some(rng2.range(130, 150)), max_cmds: 1, sequences_pct: 0, ..Default::default() };
+            let spec = gen_world(&mut rng2, &p);
+            let opts = gen_opts(&mut rng2, &spec);
+            let behav = behav_exit0_all(&spec, &mut rng2, 0);
+            let mut script = RunScript::simple(opts);
+            script.behav = behav;
+            script.strategy = Strategy::PlanOrder;
+            script.sched_seed = rng2.next_u64();
+            gen_knobs(&mut rng2, &mut script);
+            sc = RunScenario { spec, mode: Mode::All, script, hang_ms: default_hang_ms() };
+        }
         _ => {}
     }
     sc
@@ -681,7 +708,8 @@ pub fn check_c05(ctx: &RunCtx, out: &mut Outcome) {
                 }
             }
             Mode::Named => {
-                let named_set: BTreeSet<String> = ctx.sc.script.opts.targets.iter().cloned().collect();
+                // `app/` and `./app` are spellings of `app` (a tool that accepts them must treat them as `app`)
+                let named_set: BTreeSet<String> = ctx.sc.script.opts.targets.iter().map(|t| t.trim_start_matches("./").trim_end_matches('/').to_string()).collect();
                 if ctx.sc.script.opts.deps {
                     let want = models::closure(&deps, &named_set);
                     if union != want {
